@@ -26,14 +26,17 @@ Inductive lobs :=
     and the network error flag.  One call of set_url: array, URL of the request,
     new name, new URL, new enabled flag, what the (new) source delivers if it
     is asked; observed: restart flag and error.  One engine rebuild (any other
-    settings change).  Observed after each step: the lists and the verdicts of
-    the probe names. *)
+    settings change).  One restart of the process (the lists written to the
+    configuration file, a new filter created from it on the same data
+    directory, the engine built).  Observed after each step: the lists and the
+    verdicts of the probe names. *)
 Inductive rstep :=
   | RStep (block allow force : bool) (due : list N) (ocs : list (N * outcome))
           (obs_updated : N) (obs_net_err : bool) (obs_lists : list lobs) (obs_verdicts : list N)
   | RSet (allow : bool) (url : N) (name : bytes) (nurl : N) (enabled : bool) (o : outcome)
          (obs_restart obs_err : bool) (obs_lists : list lobs) (obs_verdicts : list N)
-  | RRebuild (obs_lists : list lobs) (obs_verdicts : list N).
+  | RRebuild (obs_lists : list lobs) (obs_verdicts : list N)
+  | RRestart (obs_lists : list lobs) (obs_verdicts : list N).
 
 Inductive case :=
   (* text, reader ends in an error; observed: error class, title, rule count,
@@ -68,6 +71,7 @@ Definition run_step (s : rstep) (st : rstate) : bool * rstate :=
       (* the restart flag is only looked at when there is no error *)
       (Bool.eqb er er' && (er || Bool.eqb rs rs'), st')
   | RRebuild _ _ => (true, rebuild_now st)
+  | RRestart _ _ => (true, restart crc32_update st)
   end.
 
 Definition file_gen (i : N) (fs : files) : option N :=
@@ -88,6 +92,7 @@ Definition list_agrees (st0 st : rstate) (o : lobs) : bool :=
 Definition step_obs (s : rstep) : list lobs * list N :=
   match s with
   | RStep _ _ _ _ _ _ _ ol ov => (ol, ov) | RSet _ _ _ _ _ _ _ _ ol ov => (ol, ov) | RRebuild ol ov => (ol, ov)
+  | RRestart ol ov => (ol, ov)
   end.
 
 Definition step_agrees (probes : list bytes) (s : rstep) (st0 st : rstate) : bool :=
